@@ -48,7 +48,7 @@ RULE = ('scenes of 1-12 blends of 2-4 elliptical Gaussians + isolated + sub-2*np
         'are not 1..N and contrast != 1 (the 1..N / label-kept clauses are then not vacuous); distinct by digest of '
         '(data, input label array, arguments)')
 CLASSES = ['blend', 'sched_small', 'sched_many', 'flat', 'nonpos', 'subset', 'gaps', 'levels', 'contrast',
-           'tiny', 'masked', 'hostile', 'dtype', 'merged', 'finder', 'redeblend', 'nmarkers', 'history', 'degenerate',
+           'tiny', 'masked', 'hostile', 'dtype', 'merged', 'finder', 'redeblend', 'nmarkers', 'history', 'provenance', 'degenerate',
            'degenerate']    # listed twice on purpose: two slots of the round-robin
 MUST_REACH = ['photutils.segmentation.deblend:deblend_sources',
               'photutils.segmentation.deblend:_deblend_source',
@@ -93,12 +93,15 @@ def build_inputs(rng, cls):
     from photutils.segmentation import SegmentationImage, detect_sources
     sc = gen.make_scene(rng, cls)
     data = gen.apply_layout(sc['data'], sc['layout'])
+    mask_before = None if sc['mask'] is None else sc['mask'].copy()
     with warnings.catch_warnings():
         warnings.simplefilter('ignore')
         seg0 = detect_sources(data, sc['thr'], sc['npix_det'], connectivity=sc['conn'], mask=sc['mask'])
     if seg0 is None:
         return None
     facts = dict(sc['flags'])
+    if sc['mask'] is not None:
+        facts['mask_untouched_by_detect'] = bool(np.array_equal(sc['mask'], mask_before))
     fresh = bool(rng.random() < 0.5)
     seg_layout = sc.get('seg_layout', 'C')
     if seg_layout != 'C' and not sc['post'] and facts.get('degenerate') != 'empty_image':
@@ -119,6 +122,13 @@ def build_inputs(rng, cls):
         seg = SegmentationImage(seg0.data.copy())
     else:
         seg = seg0                                  # the object exactly as detect_sources made it
+    # (x) provenance: the input object gets a history of public mutators and attribute reads
+    if (sc.get('axes', {}).get('provenance') or cls == 'provenance') and cls not in ('dtype', 'merged') \
+            and facts.get('degenerate') != 'empty_image':
+        seg, hist = _with_history(rng, seg)
+        facts['history'] = hist
+        if seg.nlabels == 0:
+            return None
     kw = dict(sc['kw'])
     labs = np.asarray(seg.labels)
     areas = np.array([int(np.count_nonzero(seg.data == v)) for v in labs])
@@ -135,6 +145,74 @@ def build_inputs(rng, cls):
                 axes=sc.get('axes', {}),
                 n_eligible=int(np.count_nonzero(areas[np.isin(labs, req)] >= 2 * kw['npixels'])),
                 areas=dict(zip(labs.tolist(), areas.tolist())))
+
+
+_READS = ['labels', 'nlabels', 'max_label', 'slices', 'areas', 'bbox', 'is_consecutive', 'missing_labels',
+          'background_area', 'data_ma', 'deblended_labels', 'deblended_labels_map', 'shape']
+
+
+def _with_history(rng, seg):
+    """Public mutators + attribute reads on the input object (all documented API, all valid arguments).
+    Only label-preserving-connectivity operations: nothing is merged, so every segment stays connected."""
+    from photutils.segmentation import SegmentationImage
+    if not isinstance(seg, SegmentationImage):
+        raise TypeError('harness')
+    log = []
+
+    def read():
+        for a in rng.choice(_READS, size=int(rng.integers(0, 5)), replace=False):
+            getattr(seg, str(a))
+            log.append('read:' + str(a))
+
+    nsteps = int(rng.integers(1, 4))
+    for step in range(nsteps):
+        read()
+        labs = np.asarray(seg.labels)
+        n = labs.size
+        if n == 0:
+            break
+        mx = int(labs.max())
+        ops = ['relabel_consecutive'] * 4 + ['reassign_label', 'reassign_labels', 'keep_labels', 'remove_labels',
+                                               'keep_label', 'remove_label', 'copy', 'data_setter']
+        op = str(rng.choice(ops))
+        rel = bool(rng.random() < 0.3)
+        if op == 'relabel_consecutive':
+            k = int(rng.choice([1, 2, 3, n, n + 1, mx + 1, mx, int(rng.integers(2, 2 * n + 4))]))
+            k = max(1, k)
+            form = int(rng.integers(0, 3))
+            if form == 0:
+                seg.relabel_consecutive(start_label=k)
+            elif form == 1:
+                seg.relabel_consecutive(k)
+            else:
+                seg.relabel_consecutive(start_label=np.int64(k))
+            log.append('relabel_consecutive(%d)' % k)
+        elif op in ('reassign_label', 'reassign_labels'):
+            lab = int(rng.choice(labs))
+            free = sorted(set(range(1, mx + 6)) - set(labs.tolist()))
+            new = int(rng.choice(free))
+            if op == 'reassign_label':
+                seg.reassign_label(lab, new, relabel=rel)
+            else:
+                seg.reassign_labels([lab], new, relabel=rel)
+            log.append('%s(%d->%d,relabel=%s)' % (op, lab, new, rel))
+        elif op in ('keep_labels', 'remove_labels') and n >= 2:
+            k = int(rng.integers(1, n))
+            sub = [int(v) for v in rng.choice(labs, size=k, replace=False)]
+            getattr(seg, op)(sub, relabel=rel)
+            log.append('%s(%d of %d,relabel=%s)' % (op, k, n, rel))
+        elif op in ('keep_label', 'remove_label') and n >= 2:
+            lab = int(rng.choice(labs))
+            getattr(seg, op)(lab, relabel=rel)
+            log.append('%s(%d,relabel=%s)' % (op, lab, rel))
+        elif op == 'copy':
+            seg = seg.copy()
+            log.append('copy')
+        elif op == 'data_setter':
+            seg.data = seg.data.copy()
+            log.append('data_setter')
+    read()
+    return seg, log
 
 
 def _call(b, nproc, data=None, seg=None, kw=None):
@@ -289,6 +367,24 @@ def run_case(case):
             case.note('axis_%s=%s' % (k, v))
     if not b['axes']:
         case.note('axis_plain_case')
+    f = b['facts']
+    if 'history' in f:
+        case.note('axis2_provenance_cases')
+        for h in f['history']:
+            if not h.startswith('read:'):
+                case.note('axis2_provenance_op=%s' % h.split('(')[0])
+        if f['history'] and f['history'][-1].startswith('read:'):
+            case.note('axis2_provenance_attr_read_after_last_op')
+    if 'edge' in f:
+        case.note('axis2_edge=%s' % f['edge'])
+    if 'parity' in b['axes']:
+        case.note('axis2_parity=%s' % b['axes']['parity'])
+    if f.get('data_dtype_axis') in ('float16', 'uint8', 'uint32', 'uint64', 'int16'):
+        case.note('axis2_dtype_kind=%s' % f['data_dtype_axis'])
+    if f.get('allfalse_mask'):
+        case.note('axis2_allfalse_mask')
+    if 'mask_untouched_by_detect' in f:
+        case.check(f['mask_untouched_by_detect'], 'mask_unchanged', dict(mech, op='detect_sources'))
 
     # ---- class specific relations --------------------------------------------------------
     if case.cls == 'finder':
@@ -363,6 +459,7 @@ def _finder(case, b, mech):
                   relabel=kw['relabel'], progress_bar=False)
     data = b['data_arg']
     thr = b['thr'] * data.unit if hasattr(data, 'unit') else b['thr']
+    mask0 = None if b['mask'] is None else b['mask'].copy()
     manual_seg = detect_sources(data, thr, b['npix_det'], connectivity=b['conn'], mask=b['mask'])
     from photutils.segmentation import deblend_sources
     manual = deblend_sources(data, manual_seg, kw['npixels'], nproc=1, **common)
@@ -382,6 +479,8 @@ def _finder(case, b, mech):
                fields=d, order=order)
     nod = SourceFinder(npix, deblend=False, **common)(data, thr, mask=b['mask'])
     case.check(np.array_equal(nod.data, manual_seg.data), 'finder_nodeblend_equals_detect', mech)
+    if b['mask'] is not None:
+        case.check(np.array_equal(b['mask'], mask0), 'mask_unchanged', dict(mech, op='SourceFinder'))
     case.note('schedules_applied', 2)
 
 
